@@ -397,13 +397,13 @@ func TestVerifC11(t *testing.T) {
 			}
 		}
 		// copyAsm (prefix copy of ensureCapacity): every length 0..130, both placements
-		for n := 1; n <= 130; n++ {
+		for n := 1; n <= 130 && asmDirectAvailable; n++ {
 			for _, place := range []int{hk.PlaceEnd, hk.PlaceStart} {
 				srcV := rng.Bytes(n)
 				src := gs.get("src", srcV, place)
 				dst := gs.get("dst", make([]byte, n), place)
 				r.Journal("copyAsm len=%d place=%s", n, placeName(place))
-				p, msg, isFault, addr := hk.Try(func() { copyAsm(&dst[0], &src[0], n) })
+				p, msg, isFault, addr := hk.Try(func() { vCopyAsm(&dst[0], &src[0], n) })
 				if p && isFault {
 					faults++
 					r.Violation("kernel-out-of-range-access:copyAsm:"+gs.where(addr), hk.D{"len": n, "placement": placeName(place), "panic": msg})
@@ -417,7 +417,12 @@ func TestVerifC11(t *testing.T) {
 			r.Eval(fmt.Sprintf("kernel|copyAsm|len%%8=%d", n%8))
 		}
 		// sealAsm / openAsm with the 32-byte scratch block and round keys inside the object
-		for _, c := range []sc{{12, 0, 0, 16, true, hk.PlaceEnd}, {12, 20, 17, 16, true, hk.PlaceEnd}, {13, 1, 300, 16, true, hk.PlaceStart}, {12, 16, 256, 12, true, hk.PlaceEnd}, {130, 129, 1, 16, true, hk.PlaceEnd}, {12, 7, 513, 13, true, hk.PlaceStart}} {
+		directCases := []sc{{12, 0, 0, 16, true, hk.PlaceEnd}, {12, 20, 17, 16, true, hk.PlaceEnd}, {13, 1, 300, 16, true, hk.PlaceStart}, {12, 16, 256, 12, true, hk.PlaceEnd}, {130, 129, 1, 16, true, hk.PlaceEnd}, {12, 7, 513, 13, true, hk.PlaceStart}}
+		if !asmDirectAvailable {
+			directCases = nil
+			r.Class("trivial:direct-asm-calls-unavailable-on-this-tree")
+		}
+		for _, c := range directCases {
 			encp, _ := layRK(c.place)
 			nonceV, aadV, ptV := rng.Bytes(c.nl), rng.Bytes(c.al), rng.Bytes(c.pl)
 			sealed := ref.NewGCM(key).Seal(nonceV, ptV, aadV, c.tag)
@@ -427,7 +432,7 @@ func TestVerifC11(t *testing.T) {
 			dst := gs.get("dst", make([]byte, c.pl+c.tag), c.place)
 			temp := gs.get("temp", make([]byte, 32), c.place)
 			r.Journal("sealAsm nonce=%d aad=%d pt=%d tag=%d", c.nl, c.al, c.pl, c.tag)
-			p, msg, isFault, addr := hk.Try(func() { sealAsm(encp, c.tag, &dst[0], nonce, pt, aad, &temp[0]) })
+			p, msg, isFault, addr := hk.Try(func() { vSealAsm(encp, c.tag, &dst[0], nonce, pt, aad, &temp[0]) })
 			if p && isFault {
 				faults++
 				r.Violation("kernel-out-of-range-access:sealAsm:"+gs.where(addr), hk.D{"lens": fmt.Sprint(c), "panic": msg})
@@ -450,7 +455,7 @@ func TestVerifC11(t *testing.T) {
 			temp = gs.get("temp", make([]byte, 32), c.place)
 			r.Journal("openAsm nonce=%d aad=%d pt=%d tag=%d", c.nl, c.al, c.pl, c.tag)
 			var res int
-			p, msg, isFault, addr = hk.Try(func() { res = openAsm(encp, c.tag, &out[0], nonce, ct, aad, &temp[0]) })
+			p, msg, isFault, addr = hk.Try(func() { res = vOpenAsm(encp, c.tag, &out[0], nonce, ct, aad, &temp[0]) })
 			if p && isFault {
 				faults++
 				r.Violation("kernel-out-of-range-access:openAsm:"+gs.where(addr), hk.D{"lens": fmt.Sprint(c), "panic": msg})
